@@ -38,7 +38,9 @@ UNIVERSES = {
     "bad": [{"a": "x/y"}, {"a": "x"}, {"a": ".."}, {"a": ""}, {"a/b": 1}],
     "lists": [{"a": [1, 2]}, {"a": [1, 3]}, {"a": [2]}, {"a": [1, 2], "b": 1}],
 }
-PATHS = [None, None, None, "a/{a}", "{{auto}}", "x/{{auto:_}}", "{job.id}", "callable-id", False]
+PATHS = [None, None, None, "a/{a}", "{{auto}}", "x/{{auto:_}}", "{job.id}", "callable-id", False,
+         # legal but not normalised: doubled separator, leading './', {{auto}} (possibly empty) in mid-spec
+         "id//{job.id}", "./{{auto}}", "v/{{auto}}/id/{job.id}"]
 
 
 def rand_op(rng, nuni):
